@@ -70,6 +70,17 @@ func Solve(dir, name, smt string, secs int, all bool) SolveResult {
 			cmd.Stderr = &out
 			cmd.Run()
 			s := out.String()
+			// drop solver warnings in front of the answer
+			{
+				var keep []string
+				for _, ln := range strings.Split(s, "\n") {
+					if strings.HasPrefix(ln, "WARNING") {
+						continue
+					}
+					keep = append(keep, ln)
+				}
+				s = strings.Join(keep, "\n")
+			}
 			first := strings.TrimSpace(s)
 			if i := strings.IndexByte(first, '\n'); i >= 0 {
 				first = first[:i]
